@@ -60,6 +60,21 @@ def base_jobs(tier, mm):
         ms = [m for m in ("lifo", "hifo", "lofo") if m in mm[c]["methods"]]
         jobs.append({"country": c, "opts": {"method": ms[k % len(ms)] if ms else None, "lang": mm[c]["langs"][0], "from": None, "to": None},
                      "inp": inp, "window": "none", "kind": "base", "supported": True, "hashseed": 0, "dump": "full", "group": n + n_c + k})
+    # a cheap asset (per-unit cost below 1, which selects another number format in the open-positions report) processed
+    # before an expensive one: what is shown for an asset, formats included, must not depend on the assets before it
+    n_p = 4 if tier == "quick" else 40
+    U = l6.U
+    for k in range(n_p):
+        c = ("us", "generic", "es", "ie")[k % 4]
+        inp = l6.gen_input(rng, "plain", n_assets=2)
+        cheap, dear = inp["assets"]
+        cheap["asset"], dear["asset"] = "ADA", "BTC"
+        for a, prices in ((cheap, [U // 20, U // 10, U // 4, U // 2, 3 * U // 4]), (dear, [100 * U, 1234 * U, 30000 * U])):
+            for r in a["ins"] + a["outs"] + a["intras"]:
+                if r.get("spot"):
+                    r["spot"] = rng.choice(prices)
+        jobs.append({"country": c, "opts": {"method": None, "lang": mm[c]["langs"][0], "from": None, "to": None}, "inp": inp,
+                     "window": "none", "kind": "base", "supported": True, "hashseed": 0, "dump": "full", "group": n + n_c + n_s + k})
     return jobs, rng
 
 
@@ -178,7 +193,19 @@ def compare_asset(base, other, asset, mm, job):
     assets = [x["asset"] for x in job["inp"]["assets"]]
     for fn in sorted(fa):
         if fn.endswith("_open_positions.ods"):
-            continue        # portfolio-wide by design (weights relative to all assets)
+            # weights and totals are portfolio-wide by design; an asset's own lines (holder / exchange, balance, per-unit cost,
+            # unrealised cost, and the number formats of its cells) are not
+            if fn in fb and not (fa[fn].get("bad") or fb[fn].get("bad")):
+                for k, ncols in ((1, 5), (2, 6)):
+                    if k < len(fa[fn]["sheets"]) and k < len(fb[fn]["sheets"]):
+                        own = lambda rows: [[c[:2] + c[3:] if c is not None and j < ncols else (c[4] if c is not None else None)
+                                             for j, c in enumerate(r)] for r in asset_rows(rows, asset)]   # noqa: E731
+                        ra, rb = own(fa[fn]["sheets"][k][1]), own(fb[fn]["sheets"][k][1])
+                        if ra != rb:
+                            i = next((i for i, (x, y) in enumerate(zip(ra, rb)) if x != y), min(len(ra), len(rb)))
+                            return (f"{fn}: sheet `{fa[fn]['sheets'][k][0]}`: line {i + 1} of {asset}: {ra[i] if i < len(ra) else None} / "
+                                    f"{rb[i] if i < len(rb) else None}"), set()
+            continue
         if fn not in fb:
             return f"{fn} missing in the single-asset run", set()
         if fa[fn].get("bad") or fb[fn].get("bad"):
